@@ -15,4 +15,5 @@ Extraction "../build/gx.ml"
   fill_body first_bad valid_fun valid_rhs valid_named valid_euler states_clean reserved_free
   reserved init_states init_params
   is_topological expr_eqb
-  D extend_lin is_zero_expr predict_mode valid_scheme lin_name slot_mode.
+  D extend_lin is_zero_expr predict_mode valid_scheme lin_name slot_mode
+  to_ode minus.
